@@ -4,13 +4,20 @@
 
    Fam = "norm"    : the normalize_chunks grid  Shapes x per-axis spec menu x
                      Limits x Itemsizes x previous_chunks menu (3-d shapes: Limits3)
+   Fam = "prev"    : previous_chunks as a first-class dimension of automatic chunking: every axis "auto",
+                     1, 2 and 3 axes; the previous chunking of an axis is any sequence of at most PrevLen
+                     pieces from PrevPieces (a small piece, one in the tolerance band above twice /
+                     2.5 times it, an oversize one, and 0 - in every order, zero-width pieces at the
+                     start, inside and at the end, after small and after oversize pieces);
+                     PrevLimits[k] = element limits for k axes, byte limit = elements x itemsize
    Fam = "rechunk" : every (source, target) pair of chunkings of every shape in
                      Shapes, ZShapes and the 1-d extents 0..N (when N >= 0); for the
                      1-d shapes and ZShapes, chunkings with one zero-width block are
                      included on axes of extent 1..Z                              *)
 EXTENDS Rechunk
 
-CONSTANTS Fam, N, Z, Shapes, ZShapes, Limits, Limits3, Itemsizes
+CONSTANTS Fam, N, Z, Shapes, ZShapes, Limits, Limits3, Itemsizes,
+          PrevPieces, PrevLen, PrevAxisMenu, PrevLimits     \* Fam = "prev"
 
 VARIABLES case, exp, out
 
@@ -63,7 +70,23 @@ RechunkCases ==
   UNION { [fam: {"rechunk"}, shape: {sh}, chunks: NDC(sh, ZFor(sh)), target: NDC(sh, ZFor(sh))]
           : sh \in Shapes \cup ZShapes \cup OneD }
 
+RECURSIVE SeqsOfLen(_, _)
+SeqsOfLen(S, k) == IF k = 0 THEN {<<>>} ELSE {<<x>> \o r : x \in S, r \in SeqsOfLen(S, k - 1)}
+PrevAxisAll(L) == {p \in UNION {SeqsOfLen(PrevPieces, k) : k \in 1..L} : SumSeq(p) > 0}
+PrevND ==       \* <<set of previous chunkings, number of axes>>
+  { <<p>> : p \in PrevAxisAll(PrevLen) }
+  \cup { <<p, p>> : p \in PrevAxisAll(PrevLen) }
+  \cup { <<a, b>> : a \in PrevAxisAll(PrevLen - 1), b \in PrevAxisMenu }
+  \cup { <<b, a>> : a \in PrevAxisAll(PrevLen - 1), b \in PrevAxisMenu }
+  \cup { <<p, p, p>> : p \in PrevAxisAll(PrevLen) }
+  \cup (PrevAxisMenu \X PrevAxisMenu \X PrevAxisMenu)
+PrevCases ==
+  UNION { [fam: {"norm"}, shape: {ShapeOf(pv)}, spec: {[d \in DOMAIN pv |-> AutoC]},
+           limit: {l * i : l \in PrevLimits[Len(pv)], i \in Itemsizes} , itemsize: Itemsizes, prev: {pv}]
+          : pv \in PrevND }
+
 Cases == CASE Fam = "norm"    -> NormCases
+           [] Fam = "prev"    -> {c \in PrevCases : c.limit % c.itemsize = 0 /\ (c.limit \div c.itemsize) \in PrevLimits[Len(c.shape)]}
            [] Fam = "rechunk" -> RechunkCases
 
 Expected(c) ==
@@ -113,7 +136,7 @@ BlocksFromPieces == (case.fam = "rechunk" /\ Len(case.shape) >= 2 /\ Cardinality
       BlockFromPieces(case.shape, case.chunks, pcs, b) = BlockCells(case.shape, case.target, b)
 
 \* the target blocks partition the identity array
-TargetCovers == case.fam = "rechunk" =>
+TargetCovers == (case.fam = "rechunk" /\ Len(case.shape) >= 2 /\ Cardinality(BlockIdx(case.target)) <= 4) =>
    LET all == UNION { {BlockCells(case.shape, case.target, b)[t] : t \in DOMAIN BlockCells(case.shape, case.target, b)}
                       : b \in BlockIdx(case.target) }
    IN all = {exp.cells[j] : j \in DOMAIN exp.cells}
